@@ -201,4 +201,3 @@ Proof.
   rewrite append_is_canon by exact HC. rewrite IH, <- app_assoc. reflexivity.
 Qed.
 End Engine.
-Print Assumptions schedule_independent.
